@@ -439,7 +439,31 @@ def lockstep(eng, res, rule="R-LOCKSTEP"):
     return len(main)
 
 
+ALLOWED_INDEX_WRITERS = {
+    "atom_bonding_to": {"bond.BondDescriptor.__init__": "the parser records the binding atom", ATTACH: "the attachment shift"},
+    "node_idx": {"mol_gen.MolGen.__init__": "a fresh fragment's descriptors sit on node 0", ATTACH: "the attachment shift"},
+}
+
+
+def index_writers(eng, res, rule="R-INDEX-WRITERS"):
+    """Who may write a descriptor's atom / node index: the parser (once) and the attachment shift. Any other writer
+    changes which atom a bond will be made to behind the back of the rules above."""
+    n = 0
+    for fi in eng.prog.all_functions():
+        for node in own_nodes(fi.node):
+            if isinstance(node, ast.Attribute) and node.attr in ALLOWED_INDEX_WRITERS and isinstance(node.ctx, (ast.Store, ast.Del)):
+                n += 1
+                res.unit(fi)
+                owner = fi.outermost().qualname
+                ok = owner in ALLOWED_INDEX_WRITERS[node.attr]
+                res.ob(rule, fi, f"write:{node.attr}:{owner}", f"`{node.attr}` of a descriptor is written only by the parser and by the attachment shift", node, ok,
+                       f"{fi.qualname} rewrites {src(node)}: the index the parser recorded (the atom the notation designates) is altered outside attach_other")
+    # setattr-style writes are excluded by the census
+    return n
+
+
 def check(eng, res):
+    res.doc("R-INDEX-WRITERS", "who-may-write: descriptor atom / node indices are written only by BondDescriptor.__init__, MolGen.__init__ (node 0) and the shift in attach_other")
     res.doc("R-BOND-PRIMITIVE", "who-may-call: RDKit structure mutators on the generation path only in/through attach_other; MolFromSmiles only in MolGen.__init__")
     res.doc("R-COMPAT-DOM", "every CFG path to AddBond passes the is_compatible test on its true branch; the false branch raises")
     res.doc("R-OPERAND-AGREE", "provenance: the tested descriptors are the ones whose atom_bonding_to / bond_type feed AddBond and the residue-graph edge")
@@ -447,6 +471,7 @@ def check(eng, res):
     res.doc("R-CONSUME", "both reacted descriptors deleted on every path after the bond; survivors appended once")
     res.doc("R-INDEX-SPACE", "at each attach_other call site both indices are computed on the very lists attach_other indexes")
     res.doc("R-COMPAT-TABLE", "the predicate used by the guard and by partner selection is exactly the conjugation rule (C03, whole universe enumerated)")
+    res.doc("R-BRANCH-ORDER", "the binding atom recorded by the token parser follows the branch structure of the text (shared with C02)")
     res.doc("R-LOCKSTEP", "Stochastic.__init__ extends bond_descriptors in lockstep with repeat_bonds / end_bonds (repeat first)")
     n, reach = bond_primitive(eng, res)
     res.floor("R-BOND-PRIMITIVE", n, 5)
@@ -471,5 +496,12 @@ def check(eng, res):
         res.ob("R-COMPAT-TABLE", "bond.BondDescriptor.is_compatible", "evaluable", "the guard's predicate is the conjugation rule", "-", False, str(exc))
     nl = lockstep(eng, res)
     res.floor("R-LOCKSTEP", nl, 2)
+    nw = index_writers(eng, res)
+    res.floor("R-INDEX-WRITERS", nw, 4)
+    from . import c02
+
+    sub2 = type(res)(res.prop)
+    c02.branch_order(eng, sub2)  # the atom a descriptor designates (binding atom bookkeeping of the token parser)
+    res.obligations += sub2.obligations
     res.assumptions += ["RDKit AddBond adds exactly one bond of the given order between the given atom indices; CombineMols keeps self's atom indices and appends other's"]
     res.not_decided += ["that the chosen pair is the one the notation intends (C08)", "RDKit's behaviour on the resulting molecule"]
